@@ -68,7 +68,9 @@ def parse(
 def parse_file(path: Path | str) -> NixSourceCode:
     """Parse a Nix file from disk with UTF-8 decoding."""
     path = Path(path)
-    source_code = path.read_text(encoding="utf-8")
+    # Decode the bytes as they are: read_text() would translate CRLF to LF, so
+    # a file could not be reproduced byte for byte.
+    source_code = path.read_bytes().decode("utf-8")
     # Anchor relative path literals at the file's absolute location so later
     # lookups do not depend on the working directory at that time.
     with source_path_context(path.absolute()):
